@@ -42,7 +42,7 @@ var pureExternPrefixes = []string{
 	"math/big.NewInt",
 	"(error).Error", "(fmt.Stringer).String",
 	"reflect.TypeOf", "reflect.DeepEqual", "(reflect.Type).",
-	"runtime/debug.Stack",
+	"runtime/debug.Stack", "runtime.Caller", "runtime.FuncForPC", "(*runtime.Func).Name",
 	"sync/atomic.Load", "(*sync/atomic.Bool).Load", "(*sync/atomic.Int64).Load", "(*sync/atomic.Uint64).Load", "(*sync/atomic.Int32).Load",
 	"(*sync.Mutex).", "(*sync.RWMutex).", "(sync.Locker).",
 	"(lib.LoggerI).", "(lib.ErrorI).", "(lib/crypto.PublicKeyI).", "(lib/crypto.AddressI).",
